@@ -404,6 +404,41 @@ func (r *dtRun) evalInstr(fr *dtFrame, v ssa.Value, depth int) absVal {
 		}
 		return absVal{}
 	case *ssa.Lookup:
+		// a lookup in a package-level map literal that is never modified, with a concrete key: the literal decides
+		if ld, ok := x.X.(*ssa.UnOp); ok {
+			if g, ok := ld.X.(*ssa.Global); ok && r.w.globalFrozen(g) {
+				if entries, ok := r.w.mapLiteralEntries(g); ok {
+					k := r.resolve(r.eval(fr, x.Index))
+					if r.need != "" {
+						return absVal{}
+					}
+					if k.K == avInt || k.K == avStr {
+						var hit *fmEntry
+						for i := range entries {
+							e := &entries[i]
+							if k.K == avInt {
+								if iv, exact := constant.Int64Val(e.Key); exact && e.Key.Kind() == constant.Int && iv == k.I {
+									hit = e
+								}
+							} else if e.Key.Kind() == constant.String && constant.StringVal(e.Key) == k.S {
+								hit = e
+							}
+						}
+						val := zeroOf(x.Type())
+						if x.CommaOk {
+							val = zeroOf(x.Type().(*types.Tuple).At(0).Type())
+						}
+						if hit != nil {
+							val = r.eval(fr, hit.Vals[0])
+						}
+						if x.CommaOk {
+							return absVal{K: avTuple, Tuple: []absVal{val, {K: avBool, B: hit != nil}}}
+						}
+						return val
+					}
+				}
+			}
+		}
 		m := r.resolve(r.eval(fr, x.X))
 		if r.need != "" {
 			return absVal{}
